@@ -12,7 +12,7 @@ TRUSTED_BASE_COMMON = [
 ]
 
 FSM_CORR = ["corr/FsmCorr.v"]
-NODE_CORR = ["corr/FsmCorr.v", "corr/CacheCorr.v", "corr/NodeCorr.v"]
+NODE_CORR = ["corr/FsmCorr.v", "corr/CacheCorr.v", "corr/NodeCorr.v", "corr/TransportCorr.v"]
 
 
 def P(props, suites, technique, level_text, level_note, corr=None, level="proof", assumptions=None, explanation="", trusted=None):
@@ -49,10 +49,10 @@ PROPS = {
         "Machine-checked frame theorem for every input, sender and oracle answer; strangers and role-confused senders cannot name an existing channel (key built from the authenticated peer). The honour conditions of restart requests are enumerated (every single-field mutation) against the real code with direct monitors.",
         "Authenticated remote peer is libp2p's / graphsync's contract (assumed); the key discipline is part of the model's step function and is therefore itself validated by the correspondence (a handler that touched another key would disagree with the model)",
         corr=NODE_CORR),
-    "C10": P("props/C10.v", ["noderestart", "nodeflow"],
+    "C10": P("props/C10.v", ["noderestart", "nodeflow", "transport"],
         "Coq theorems lifted to every node history: identity (id, peers, base cid, selector), opening voucher and log prefixes, block indexes are preserved by every input incl. all restart paths and process restarts; re-issued request shape; enumerated restart product on the real manager with direct monitors (progress unchanged, no channel created, original request re-issued, revalidation before asking)",
         "Machine-checked invariants over all histories of the node model plus an enumerated product (4 roles x statuses x progress / second voucher x process restart x every restart path) on the real code.",
-        "Transport-level clauses (skip count = received blocks, previous request cancelled first, queued messages delivered once) belong to the transport suite; byte totals under restart are covered by C07's restart theorem and the monitors",
+        "Transport-level clauses (skip count = received blocks, previous request cancelled first, queued messages delivered once) are theorems over Transport.v tied by the transport suite; byte totals under restart are covered by C07's restart theorem and the monitors",
         corr=NODE_CORR),
     "C18": P("props/C18.v", ["nodepeers", "nodeflow"],
         "Coq theorems: ids issued by atomic increments are distinct and strictly increasing for any number of calls; a later manager starts above an earlier one under the stated clock hypothesis; creating an existing id fails and frames; monitors on the real manager (ids increasing, duplicate new request refused and framing)",
@@ -75,7 +75,7 @@ PROPS = {
         "Machine-checked proof of the pause rule at cache/FSM level for all reports and limits, with the cache-consistency invariant preserved by reports, SetDataLimit and restarts. Manager-level resume/reject rules are in the node suites.",
         "Sequential reporters; 'no further payload while paused' is graphsync's contract (assumed, see C01); the manager's resume / stay-paused / reject rules are in Node.v (update_validation) and are tied to the code by the enumerated limit rounds of nodeapi with a direct resume-rule monitor",
         corr=NODE_CORR),
-    "C09": P("props/C09.v", ["fsmcleanup", "fsmtable", "nodeapi"],
+    "C09": P("props/C09.v", ["fsmcleanup", "fsmtable", "nodeapi", "transport"],
         "Coq theorems over every schedule of the go-statemachine model: cleanup runs = handler starts, handler starts only on entering a cleanup status or CompleteCleanupOnRestart, terminal only via cleanup, endings settle; regenerated entry function and table; exhaustive gated-handler product on the real channels.Channels",
         "Machine-checked proof for all schedules at machine level; the cleanup entry function body and the table are regenerated from channels_fsm.go each run; the real FSM is driven through every (status x ending x event queued while the cleanup handler is held) case.",
         GO_SM + "; 'settles' assumes the handler goroutine is scheduled; closing through the manager is covered by nodeapi (close monitors), closing at the transport by the transport suite",
@@ -84,6 +84,11 @@ PROPS = {
         "Coq theorems over the generated actions (only a party's own pause/resume events write its flag; flags follow actions where valid; invalid requests leave the record unchanged; derived views); exhaustive pause/resume interleavings on the real channels.Channels",
         "Machine-checked proof at FSM level for every record and event, with all pause/resume interleavings up to the tier's length enumerated against the real code in every status.",
         "manager-level effects (transport pause/resume, announcement messages, stay-paused rule) are in Node.v and tied to the code by nodeapi with direct monitors",
+        corr=NODE_CORR),
+    "C16": P("props/C16.v", ["transport"],
+        "Coq theorems over the adaptor model Transport.tstep: every handler call of a request-keyed callback carries the owner channel, unknown requests / missing extensions / cleaned-up channels are silent (with the reachable-state invariant that mapped requests belong to tracked channels), off-wire blocks unaccounted, commands on the current request, completion reported once, stores registered for the lifetime; the real Transport over a fake GraphExchange is compared step by step incl. its bookkeeping snapshot",
+        "Machine-checked proof over the hand-written model of graphsync.go, tied to the real adaptor by close / restart products and generated callback sequences over several channels and requests with cleanup anywhere; direct owner-table monitors on the implementation.",
+        "graphsync itself (which callbacks it makes, authenticated peer) is not modelled: callbacks are inputs; the blocking structure of open/close is modelled as sequential completion (the fake GraphExchange completes cancels at once), hangs are caught by the watchdog",
         corr=NODE_CORR),
     "C17": P("props/C17.v", ["fsmhist", "fsmcleanup", "nodeflow"],
         "Coq theorem over every schedule: announcements = applied events in plan order, snapshots chain by Fsm.apply, written records = announced records; correspondence compares every notification (event, full view) of the real notifier with the model",
@@ -100,4 +105,4 @@ PROPS = {
 NOT_APPLICABLE = {}
 
 # commits in /repo that add verif-tagged hook files
-HOOK_COMMITS = ["8ac3d66", "16a421e"]
+HOOK_COMMITS = ["8ac3d66", "16a421e", "57a8c4b"]
